@@ -313,6 +313,130 @@ def _derives_unchanged(binc, sup, node, op, target_call, depth=0):
     return False
 
 
+def _returned_via_try(binc, sup, b, it_, inode):
+    """The method's own body takes the (checked) inner result apart with `?` and returns Ok again afterwards.
+    Returns None when there is no such `?`; else (ok, check callee ids, skip blocks, continue-edge, detail):
+    ok when every definition of the return value is the `?`'s error return, an `Ok(..)` built under the `?`'s
+    Continue edge (with the Continue payload, or unit), or an `Ok(())` on a path that never reaches the inner call
+    (a skip block, judged separately)."""
+    brs = []
+    for bb, t in b.calls():
+        f = fn_of(t) or {}
+        if f.get("def") == "std::ops::Try::branch" and t["args"] and _derives_unchanged(binc, sup, ((), bb), t["args"][0], it_):
+            brs.append((bb, t))
+    if len(brs) != 1:
+        return None
+    bb, br = brs[0]
+    chk = []
+    tr = strace_deep(sup, ((), bb), br["args"][0])
+    for s_ in tr.steps:
+        if s_[0] == "enter_callee" and s_[1] in binc.by_id and _check_like(binc, binc.by_id[s_[1]]):
+            chk.append(s_[1])
+    sw = b.blocks[br["target"]]["term"]
+    if sw["k"] != "switch":
+        return (False, chk, [], None, "the `?` on the inner result is not branched on")
+    cont = [t_ for v_, t_ in sw["targets"] if v_ == 0]
+    if not cont:
+        return (False, chk, [], None, "no Continue edge")
+    cedge = (br["target"], 0, cont[0])
+    skips = []
+    inner_bb = inode[1] if not inode[0] else None
+    for db, _, kind, payload in b.whole_defs(0):
+        if kind == "call":
+            cf = fn_of(payload) or {}
+            if cf.get("def") == "std::ops::FromResidual::from_residual" and payload["args"]:
+                rt = trace(b, payload["args"][0])
+                through_br = (rt.origin and rt.origin[0] == "call" and rt.origin[2] is br) or any(x[0] == "call" and x[1] == "std::ops::Try::branch" and x[2] == bb for x in rt.steps)
+                if through_br and any(x[0] == "downcast" and x[1] == "Break" for x in rt.steps):
+                    continue
+            return (False, chk, [], cedge, "the method returns something other than the inner call's result")
+        if kind != "assign" or payload["rv"]["k"] != "aggregate" or payload["rv"].get("variant") != "Ok":
+            return (False, chk, [], cedge, "the method returns something other than the inner call's result")
+        ops = payload["rv"]["ops"]
+        unit = False
+        if ops:
+            ot = trace(b, ops[0])
+            unit = bool(ot.origin and ot.origin[0] == "agg" and ot.origin[1]["rv"].get("agg") == "tuple" and not ot.origin[1]["rv"]["ops"])
+            from_cont = bool(((ot.origin and ot.origin[0] == "call" and ot.origin[2] is br) or any(x[0] == "call" and x[1] == "std::ops::Try::branch" and x[2] == bb for x in ot.steps)) and any(x[0] == "downcast" and x[1] == "Continue" for x in ot.steps))
+        else:
+            from_cont = False
+        if b.edge_dominates(cedge[0], cedge[1], cedge[2], db) and (unit or from_cont):
+            continue
+        reaches_inner = inner_bb is not None and (db in b.reachable_from(inner_bb))
+        if unit and not reaches_inner and not b.edge_dominates(cedge[0], cedge[1], cedge[2], db):
+            skips.append(db)
+            continue
+        return (False, chk, [], cedge, "an Ok value is returned that is not the inner call's")
+    return (True, chk, skips, cedge, "")
+
+
+def _pending_flag_protocol(ctx, fb, skip_blocks, cedge, methods):
+    """The discipline behind `if !self.dirty { return Ok(()) }` in flush: the skip is taken only on the clear state of
+    a bool field of the wrapper; the field is cleared nowhere but after the inner flush succeeded; every store made
+    by the writing methods is `true` or `field | x` (a write can raise the flag, never lower it), and each writing
+    method makes such a store on every path to its inner call. (ok, detail)."""
+    binc = ctx.bin
+    adt = fb.raw.get("impl_self_adt")
+    # the flag: the bool field of self whose false edge dominates every skip block
+    flag = None
+    for sb in sorted(fb.reach()):
+        sw = fb.blocks[sb]["term"]
+        if sw["k"] != "switch" or not is_place(sw["discr"]):
+            continue
+        tr = trace(fb, sw["discr"])
+        fld = [x for x in tr.steps if x[0] == "field" and x[2] == adt]
+        if not (tr.origin == ("arg", 1) and fld):
+            continue
+        zero = [t_ for v_, t_ in sw["targets"] if v_ == 0]
+        if zero and all(fb.edge_dominates(sb, 0, zero[0], k) for k in skip_blocks):
+            flag = fld[-1][1]
+    if flag is None:
+        return (False, "Ok is returned without calling the inner method, and not under a test of a pending-output flag of the wrapper")
+
+    def stores(body):
+        out = []
+        for bi, blk in enumerate(body.blocks):
+            for s_ in blk["stmts"]:
+                if s_["k"] == "assign" and s_["p"]["pr"] and s_["p"]["pr"][-1]["k"] == "field" and s_["p"]["pr"][-1].get("adt") == adt and s_["p"]["pr"][-1]["name"] == flag:
+                    rv = s_["rv"]
+                    kind = "other"
+                    if rv["k"] == "use" and const_value(rv["op"]) is True:
+                        kind = "set"
+                    elif rv["k"] == "use" and const_value(rv["op"]) is False:
+                        kind = "clear"
+                    elif rv["k"] == "binop" and rv["op"] == "BitOr" and any(is_place(o) and o["p"]["pr"] and o["p"]["pr"][-1]["k"] == "field" and o["p"]["pr"][-1]["name"] == flag for o in (rv["a"], rv["b"])):
+                        kind = "raise"
+                    out.append((bi, kind, s_.get("line")))
+        return out
+
+    for body in binc.bodies:
+        if body.raw.get("impl_self_adt") != adt:
+            continue
+        for bi, kind, line in stores(body):
+            if kind == "other":
+                return (False, f"`{flag}` is assigned a computed value in `{body.name}` (line {line}): a write can lower the flag, and the next flush is skipped with output still buffered")
+            if kind == "clear":
+                if not (body is fb and cedge is not None and fb.edge_dominates(cedge[0], cedge[1], cedge[2], bi)):
+                    return (False, f"`{flag}` is cleared in `{body.name}` (line {line}) other than after a successful inner flush")
+    # every writing method raises the flag on the way to its inner call
+    for name, b, sup, inner, chk, ret_tr, imp in methods:
+        if name == "flush" or not inner:
+            continue
+        raising = []
+        for n_ in sup.nodes():
+            body = sup.body_of(n_)
+            if body.raw.get("impl_self_adt") != adt:
+                continue
+            blk = body.blocks[n_[1]]
+            for s_ in blk["stmts"]:
+                if s_["k"] == "assign" and s_["p"]["pr"] and s_["p"]["pr"][-1]["k"] == "field" and s_["p"]["pr"][-1].get("adt") == adt and s_["p"]["pr"][-1]["name"] == flag:
+                    raising.append(n_)
+        for inode, _, _ in inner:
+            if not sup.must_pass(sup.entry, [inode], raising):
+                return (False, f"`{name}` can reach the inner writer without touching `{flag}`: its output would not be flushed")
+    return (True, f"flush is skipped only while `{flag}` is clear; writes can only raise it; it is cleared only after the inner flush succeeded")
+
+
 # indirect calls of an io::Write method (a method path handed to a helper that calls it): id(terminator) ->
 # (fn operand, argument operands, terminator kept alive)
 _INDIRECT = {}
@@ -422,6 +546,18 @@ def r16_1(ctx):
             if ktr.origin and ktr.origin[0] == "call" and ktr.origin[2] is it_ and any(s_[0] == "downcast" and s_[1] == "Err" for s_ in ktr.steps):
                 examined = True
         returned = bool(rets) and _derives_unchanged(ctx.bin, sup, ((), rets[0]), {"k": "copy", "p": {"l": 0, "pr": []}}, it_)
+        if not returned:
+            # `check(inner.m(..))?; ..; Ok(v)`: the same result taken apart by `?` and put together again
+            via = _returned_via_try(ctx.bin, sup, b, it_, inode)
+            if via is not None and via[0]:
+                returned = True
+                chk = list(chk) + [c for c in via[1] if c not in chk]
+                if via[2]:
+                    # paths that answer Ok without calling the inner method at all (flush with nothing pending)
+                    pr = _pending_flag_protocol(ctx, b, via[2], via[3], methods)
+                    ctx.ob(f"{name}:skip-only-when-nothing-pending", pr[0], site(b, via[2][0]), pr[1])
+            elif via is not None:
+                det = via[4]
         if examined and returned and chk:
             ok = True
             det = "returns the inner call's result after testing its error's kind() for BrokenPipe"
